@@ -54,7 +54,8 @@ macro_rules! persist {
     ($lab:expr, $json:expr, $val:expr, $ty:ty, $what:expr) => {{
         let restored: Option<$ty> = if $json {
             match serde_json::to_string(&$val) {
-                Ok(s) => serde_json::from_str::<$ty>(&s).ok(),
+                // state files are read back through a reader (nothing to borrow from)
+                Ok(s) => serde_json::from_reader::<_, $ty>(s.as_bytes()).ok(),
                 Err(_) => None,
             }
         } else {
